@@ -479,6 +479,64 @@ func runC04(c *Ctx) {
 		c.Res.Evaluations += 3
 	}
 
+	// (d2) a filtered-out event is inert also beyond the writer: no hook, no Func / MsgFunc callback, no
+	// object marshaler is invoked, whichever way the event was filtered (logger level, global level, a
+	// sampler that rejects, WithLevel(Disabled)) and whichever entry point created it
+	{
+		runs, filtered := 0, 0
+		for _, ll := range []int{-128, 0, 2, 5, 7} {
+			for _, gl := range []int{-128, 1, 4, 7} {
+				for _, reject := range []bool{false, true} {
+					zerolog.SetGlobalLevel(zerolog.Level(gl))
+					st := &recState{}
+					w := &lvlWriter{}
+					l := zerolog.New(w).Level(zerolog.Level(ll)).Hook(zerolog.HookFunc(func(e *zerolog.Event, lv zerolog.Level, m string) {
+						st.calls = append(st.calls, "hook")
+					}))
+					if reject {
+						l = l.Sample(&zerolog.BasicSampler{N: 0})
+					}
+					type ent struct {
+						name string
+						lvl  int
+						mk   func() *zerolog.Event
+					}
+					ents := []ent{{"Trace", -1, l.Trace}, {"Debug", 0, l.Debug}, {"Info", 1, l.Info}, {"Warn", 2, l.Warn}, {"Error", 3, l.Error}, {"Log", 6, l.Log}}
+					for lv := -128; lv <= 7; lv++ {
+						lv := lv
+						ents = append(ents, ent{fmt.Sprintf("WithLevel(%d)", lv), lv, func() *zerolog.Event { return l.WithLevel(zerolog.Level(lv)) }})
+					}
+					for _, en := range ents {
+						st.calls = nil
+						before := len(w.levels)
+						e := en.mk()
+						e.Func(func(e *zerolog.Event) { st.calls = append(st.calls, "Func callback") }).
+							Object("o", recObj{st}).EmbedObject(recObj{st}).Interface("i", recObj{st}).
+							MsgFunc(func() string { st.calls = append(st.calls, "MsgFunc callback"); return "m" })
+						written := len(w.levels) > before
+						want := en.lvl >= ll && en.lvl >= gl && en.lvl != 7 && !reject
+						runs++
+						if written != want {
+							c.Violate(Violation{Key: "gate-wrong", Monitor: "inert-grid", Desc: fmt.Sprintf("logger level %d, global %d, rejecting sampler %v, %s: written=%v, want %v", ll, gl, reject, en.name, written, want),
+								Case: map[string]interface{}{"logger_level": ll, "global_level": gl, "rejecting_sampler": reject, "entry": en.name}})
+						}
+						if !want {
+							filtered++
+							if len(st.calls) != 0 {
+								c.Violate(Violation{Key: "filtered-event-not-inert", Monitor: "inert-grid", Desc: fmt.Sprintf("logger level %d, global %d, rejecting sampler %v: the filtered event from %s invoked %v (event nil: %v)", ll, gl, reject, en.name, st.calls, e == nil),
+									Case: map[string]interface{}{"logger_level": ll, "global_level": gl, "rejecting_sampler": reject, "entry": en.name}, Observed: st.calls, Expected: []string{}})
+							}
+						}
+					}
+				}
+			}
+		}
+		zerolog.SetGlobalLevel(zerolog.TraceLevel)
+		c.Res.Evaluations += runs
+		c.Res.ExtraCoverage["inert_grid_calls"] = runs
+		c.Res.ExtraCoverage["inert_grid_filtered"] = filtered
+	}
+
 	// (e) level text
 	for l := -128; l <= 127; l++ {
 		s := zerolog.Level(l).String()
